@@ -62,6 +62,11 @@ impl<'a> IndexCtx<'a> {
 
     pub fn error(&mut self, range: TextRange, message: impl Into<String>) {
         let file = self.current_file_id();
+        #[cfg(tablegen_lsp_verif)]
+        crate::symbol_map::verif_oplog::push(format!(
+            "error\t{}",
+            crate::symbol_map::verif_oplog::loc(&FileRange::new(file, range))
+        ));
         self.diagnostics
             .push(Diagnostic::new(FileRange::new(file, range), message));
     }
